@@ -391,7 +391,7 @@ def run_job(job):
                     small = dict(job)
                     small['rounds'] = [{'set': x.get('set', []), 'reads': []} for x in job['rounds'][:ri + 1]]
                     small['rounds'][-1]['reads'] = [list(rnd['reads'][qi][:7])]
-                    res['fails'].append({'key': key, 'size': size + (1000 if e == NA else 0), 'meta': meta[0] if meta else None,
+                    res['fails'].append({'key': key, 'size': size + (1000 if e == NA else 500 if e is None else 0), 'meta': meta[0] if meta else None,
                                          'what': f'{desc} -> {got!r}, expected {"blank" if e is None else repr(e)}',
                                          'replay': {'kind': 'job', 'job': small}})
     return res
